@@ -13,15 +13,16 @@ import (
 // deadline (wall clock, checked between executions only), the set of distinct cases, sampling, and the
 // translation of runner results into vrep records.
 type Book struct {
-	R        *vrep.Result
-	Buf      []byte // scratch read buffer reused across executions
-	N        int    // executions so far
-	deadline time.Time
-	capped   bool
-	shardI   int
-	shardN   int
-	distinct map[[16]byte]struct{}
-	sampleAt int
+	R         *vrep.Result
+	Buf       []byte // scratch read buffer reused across executions
+	N         int    // executions so far
+	Transfers int64  // intact transfers so far (several per execution)
+	deadline  time.Time
+	capped    bool
+	shardI    int
+	shardN    int
+	distinct  map[[16]byte]struct{}
+	sampleAt  int
 }
 
 func NewBook(r *vrep.Result) *Book {
@@ -65,29 +66,35 @@ func (b *Book) Distinct(sample any, key ...any) {
 }
 
 // Finish stores the distinct count.
-func (b *Book) Finish() { b.R.Distinct += int64(len(b.distinct)) }
+func (b *Book) Finish() {
+	b.R.Distinct += int64(len(b.distinct))
+	b.R.Transitions += b.Transfers // one transition = one checked transfer (several per fresh session)
+}
 
-// Fidelity files the result of RunFidelity; ok=false when the run gave no "delivered intact" verdict.
-func (b *Book) Fidelity(layer string, res FidelityResult, c any) (ok bool) {
+// Fidelity files the result of RunFidelity (one execution = one fresh Link with res.Done intact transfers);
+// caseOf(i) describes item i for the replay record. Returns false when a violation was filed.
+func (b *Book) Fidelity(layer string, res SeqResult, items int, caseOf func(i int) any) (ok bool) {
 	b.N++
 	b.R.Executions++
+	b.Transfers += int64(res.Done)
+	at := res.Done
+	if at >= items {
+		at = items - 1
+	}
 	switch {
 	case res.Panic != "":
 		// the code under test panicked, or everybody waits for bytes that cannot come any more
-		b.R.Violate(layer+":panic-or-deadlock", res.Panic, c)
+		b.R.Violate(layer+":panic-or-deadlock", fmt.Sprintf("in or after transfer #%d of the session: %s", res.Done, res.Panic), caseOf(at))
 		b.R.Outcome("VIOLATION panic-or-deadlock")
 	case res.Infra != nil:
 		// the fault-free setup (handshake) failed: nothing can be checked, and it must not fail
-		b.R.Violate(layer+":baseline-setup-failed", res.Infra.Error(), c)
+		b.R.Violate(layer+":baseline-setup-failed", res.Infra.Error(), caseOf(0))
 		b.R.Outcome("VIOLATION baseline-setup-failed")
 	case res.Problem != nil:
-		b.R.Violate(layer+":"+res.Problem.Key, res.Problem.Desc, c)
+		b.R.Violate(layer+":"+res.Problem.Key, fmt.Sprintf("transfer #%d of the session: %s", res.Done, res.Problem.Desc), caseOf(at))
 		b.R.Outcome("VIOLATION " + res.Problem.Key)
 	default:
-		if res.Tr.InputModified {
-			b.R.Outcome(layer + " writer-modified-its-input-slice (not judged)")
-		}
-		b.R.Outcome(layer + " delivered-intact, after close: " + res.End)
+		b.R.Outcome(layer + " session ended, reader after close: " + res.End)
 		return true
 	}
 	return false
@@ -100,6 +107,7 @@ func (b *Book) Tamper(layer string, res TamperResult, e Edit, L int, c any) stri
 	}
 	b.N++
 	b.R.Executions++
+	b.Transfers++
 	switch {
 	case res.Panic != "":
 		b.R.Violate(layer+":tamper:panic-or-deadlock", res.Panic, c)
